@@ -452,6 +452,22 @@ func (c *fctx) rangeStmt() []*S {
 			inner = append(inner[:pos:pos], append([]*S{mut}, inner[pos:]...)...)
 		}
 	}
+	if c.gen && !c.inLit && r.Chance(1, 6) {
+		// the body starts with a yielding switch that is left by break (after a yield), by
+		// continue (which must skip the rest of the iteration) or normally
+		w := ""
+		if keyInt && loop.Name != "" && loop.Name != "_" {
+			w = loop.Name
+		} else if valInt && loop.Name2 != "" && loop.Name2 != "_" {
+			w = loop.Name2
+		}
+		if w != "" {
+			id := c.g.id()
+			text := fmt.Sprintf("switch {\ncase int(%[1]s)%%3 == 0:\n\t«Yield»(int(%[1]s) + 300)\n\tif int(%[1]s) > 1 {\n\t\tbreak\n\t}\n\tvrt.E(%[2]d, int(%[1]s))\ncase int(%[1]s)%%3 == 1:\n\tcontinue\ndefault:\n\t«Yield»(-int(%[1]s))\n}\nvrt.E(%[3]d, int(%[1]s))", w, c.g.nextTag(), c.g.nextTag())
+			body = append(body, &S{K: SRaw, ID: id, Src: text})
+			c.g.mark("range_body_yielding_switch_left_by_break_continue_and_normally")
+		}
+	}
 	if assignIn != nil {
 		body = append([]*S{assignIn}, body...)
 	}
